@@ -1,6 +1,288 @@
 import Netpol.Model.Engine
 import Netpol.Spec.K8s
+import Netpol.Proofs.EngineLayer
+
+/-! C02: precedence of the policy layers — AdminNetworkPolicy (by priority, first matching rule)
+over NetworkPolicy over BaselineAdminNetworkPolicy — is computed exactly.
+
+The model of `allAllowedXgressConnections` / `allAllowedConnectionsBetweenPeers`
+(`Engine.xgressConns`, `Engine.peerConns`) against `Spec.anpVerdict`, `Spec.governs` /
+`Spec.npAllows`, `Spec.banpVerdict`. Only the property statements are here; the proofs are in
+`Netpol.Proofs.EngineLayer`. Vocabulary as in `Netpol.Properties.C01`; in addition
+`Spec.governsEnd` / `Spec.npAllowsEnd` are `Spec.governs` / `Spec.npAllows` on a specification end
+(an external address is never governed). -/
 namespace Netpol.Properties.C02
-open Netpol
+open Netpol Engine
+
+/-! ### the precedence, spelled out -/
+
+/-- the decision for one direction from the answers of the three layers: an ANP `Allow` or `Deny`
+is final; otherwise (no ANP rule matches, or the first matching one says `Pass`) the
+NetworkPolicies decide if some NetworkPolicy governs the pod; otherwise everything is allowed but
+what the BANP denies -/
+def layered (anp : Option Action) (governed : Bool) (np : Bool) (banp : Option Action) : Bool :=
+  match anp with
+  | some .Allow => true
+  | some .Deny => false
+  | _ => if governed then np else banp != some .Deny
+
+/-- the decision of the specification for `self` in direction `d` -/
+def dirDecision (v : Spec.View) (self other dst : Spec.End) (d : Dir) (pr : Proto) (x : Int) : Bool :=
+  layered (Spec.anpVerdict v self other dst d pr x) (Spec.governsEnd v self d)
+    (Spec.npAllowsEnd v self other dst d pr x) (Spec.banpVerdict v self other dst d pr x)
+
+theorem allowedDir_eq_dirDecision (v : Spec.View) (self other dst : Spec.End) (d : Dir) (pr : Proto)
+    (x : Int) : Spec.allowedDir v self other dst d pr x = dirDecision v self other dst d pr x :=
+  Spec.allowedDir_eq v self other dst d pr x
+
+/-- one direction: the set `xgressConns` returns holds exactly the in-range points the layered
+decision allows (`self` is the destination on ingress, the source on egress) -/
+theorem admin_precedence_exact_dir (e : Engine) (hv : e.Valid) (src dst : KPeer) (a b : Int)
+    (hs : src.Concrete a) (hd : dst.Concrete b) (hdok : dst.DstOK) (isIngress : Bool) (c : ConnSet)
+    (h : e.xgressConns src dst isIngress = .ok c) :
+    c.WF ∧ ∀ pr x, c.den pr x ↔ (inRange x ∧
+      dirDecision e.toView (selfEnd src dst a b isIngress) (otherEnd src dst a b isIngress)
+        (dst.toEnd b) (dirOf isIngress) pr x = true) := by
+  obtain ⟨hw, hden⟩ := (xgressConns_spec e hv src dst a b hs hd hdok isIngress).1 c h
+  refine ⟨hw, fun pr x => ?_⟩
+  rw [hden, allowedDir_eq_dirDecision]
+
+/-- between two different peers: a (protocol, port) pair is reported iff it is a port number and
+the layered decision allows it on the egress side of the source and on the ingress side of the
+destination -/
+theorem admin_precedence_exact (e : Engine) (hv : e.Valid) (src dst : KPeer) (a b : Int)
+    (hs : src.Concrete a) (hd : dst.Concrete b) (hdok : dst.DstOK)
+    (hne : Engine.isPodToItself src dst = false) (c : ConnSet) (h : e.peerConns src dst = .ok c) :
+    c.WF ∧ ∀ pr x, c.den pr x ↔ (inRange x ∧
+      dirDecision e.toView (src.toEnd a) (dst.toEnd b) (dst.toEnd b) .egress pr x = true ∧
+      dirDecision e.toView (dst.toEnd b) (src.toEnd a) (dst.toEnd b) .ingress pr x = true) := by
+  obtain ⟨hw, hden⟩ := (peerConns_spec e hv src dst a b hs hd hdok hne).1 c h
+  refine ⟨hw, fun pr x => ?_⟩
+  rw [hden]
+  simp only [Spec.allowed, Bool.and_eq_true, Spec.inPortRange_iff, allowedDir_eq_dirDecision,
+    and_assoc]
+
+/-! consequences that show the order of the layers -/
+
+/-- an ANP `Deny` on either side wins over every NetworkPolicy and over the BANP -/
+theorem anp_deny_wins (e : Engine) (hv : e.Valid) (src dst : KPeer) (a b : Int)
+    (hs : src.Concrete a) (hd : dst.Concrete b) (hdok : dst.DstOK)
+    (hne : Engine.isPodToItself src dst = false) (c : ConnSet) (h : e.peerConns src dst = .ok c)
+    (pr : Proto) (x : Int)
+    (hdeny : Spec.anpVerdict e.toView (src.toEnd a) (dst.toEnd b) (dst.toEnd b) .egress pr x
+        = some .Deny ∨
+      Spec.anpVerdict e.toView (dst.toEnd b) (src.toEnd a) (dst.toEnd b) .ingress pr x
+        = some .Deny) : ¬ c.den pr x := by
+  intro hc
+  obtain ⟨_, h1, h2⟩ := ((admin_precedence_exact e hv src dst a b hs hd hdok hne c h).2 pr x).mp hc
+  rcases hdeny with hd' | hd'
+  · simp [dirDecision, layered, hd'] at h1
+  · simp [dirDecision, layered, hd'] at h2
+
+/-- an ANP `Allow` on both sides wins over every NetworkPolicy and over the BANP -/
+theorem anp_allow_wins (e : Engine) (hv : e.Valid) (src dst : KPeer) (a b : Int)
+    (hs : src.Concrete a) (hd : dst.Concrete b) (hdok : dst.DstOK)
+    (hne : Engine.isPodToItself src dst = false) (c : ConnSet) (h : e.peerConns src dst = .ok c)
+    (pr : Proto) (x : Int) (hx : inRange x)
+    (h1 : Spec.anpVerdict e.toView (src.toEnd a) (dst.toEnd b) (dst.toEnd b) .egress pr x
+      = some .Allow)
+    (h2 : Spec.anpVerdict e.toView (dst.toEnd b) (src.toEnd a) (dst.toEnd b) .ingress pr x
+      = some .Allow) : c.den pr x := by
+  apply ((admin_precedence_exact e hv src dst a b hs hd hdok hne c h).2 pr x).mpr
+  simp [dirDecision, layered, h1, h2, hx]
+
+/-- when no ANP decides (no matching rule, or `Pass`) a governing NetworkPolicy hides the BANP:
+the direction is decided by `Spec.npAllows` alone -/
+theorem netpol_over_banp (v : Spec.View) (self other dst : Spec.End) (d : Dir) (pr : Proto) (x : Int)
+    (hanp : Spec.anpVerdict v self other dst d pr x = none ∨
+      Spec.anpVerdict v self other dst d pr x = some .Pass)
+    (hg : Spec.governsEnd v self d = true) :
+    dirDecision v self other dst d pr x = Spec.npAllowsEnd v self other dst d pr x := by
+  rcases hanp with h | h <;> simp [dirDecision, layered, h, hg]
+
+/-- … and the BANP is consulted only for an ungoverned pod, where it can only deny -/
+theorem banp_last (v : Spec.View) (self other dst : Spec.End) (d : Dir) (pr : Proto) (x : Int)
+    (hanp : Spec.anpVerdict v self other dst d pr x = none ∨
+      Spec.anpVerdict v self other dst d pr x = some .Pass)
+    (hg : Spec.governsEnd v self d = false) :
+    dirDecision v self other dst d pr x = (Spec.banpVerdict v self other dst d pr x != some .Deny) := by
+  rcases hanp with h | h <;> simp [dirDecision, layered, h, hg]
+
+/-! ### admin policies never select an IP block -/
+
+/-- specification side: no verdict for an external address -/
+theorem anp_never_selects_ip (v : Spec.View) (a : Int) (other dst : Spec.End) (d : Dir) (pr : Proto)
+    (x : Int) :
+    Spec.anpVerdict v (.ip a) other dst d pr x = none ∧
+      Spec.banpVerdict v (.ip a) other dst d pr x = none :=
+  ⟨Spec.anpVerdict_ip v a other dst d pr x, Spec.banpVerdict_ip v a other dst d pr x⟩
+
+/-- model side: for an IP block the ANP layer answers "not captured", whatever the policies -/
+theorem anp_never_selects_ip_model (e : Engine) (src dst : KPeer) (isIngress : Bool) (r : CSet)
+    (hs : selfPeer src dst isIngress = .ip r) :
+    e.anpConns src dst isIngress = .ok (PolicyConns.empty, false) :=
+  anpConns_self_ip e src dst isIngress r hs
+
+/-- hence the side of an external address is unrestricted -/
+theorem ip_side_unrestricted (e : Engine) (hv : e.Valid) (src dst : KPeer) (a b : Int)
+    (hs : src.Concrete a) (hd : dst.Concrete b) (hdok : dst.DstOK) (isIngress : Bool) (r : CSet)
+    (hself : selfPeer src dst isIngress = .ip r) (c : ConnSet)
+    (h : e.xgressConns src dst isIngress = .ok c) : ∀ pr x, c.den pr x ↔ inRange x := by
+  obtain ⟨_, hden⟩ := (xgressConns_spec e hv src dst a b hs hd hdok isIngress).1 c h
+  intro pr x
+  rw [hden]
+  have : ∃ a', selfEnd src dst a b isIngress = .ip a' := by
+    cases isIngress
+    · simp only [selfPeer_false] at hself; subst hself; exact ⟨a, rfl⟩
+    · simp only [selfPeer_true] at hself; subst hself; exact ⟨b, rfl⟩
+  obtain ⟨a', ha'⟩ := this
+  rw [ha']
+  simp [Spec.allowedDir]
+
+/-! ### the answers depend on the priorities only, not on the order of the input -/
+
+/-- `sortAdminNetpolsByPriority`: with pairwise distinct priorities the sorted slice does not
+depend on the order of the input -/
+theorem anp_order_free {l l' : List ANP} (hp : l.Perm l') (hn : (l.map (·.prio)).Nodup) :
+    l.foldr Engine.insertByPrio [] = l'.foldr Engine.insertByPrio [] :=
+  Engine.anp_order_free hp hn
+
+/-- the same for the slice `insertANP` maintains object after object -/
+theorem anp_order_free_insertSorted {l l' : List ANP} (hp : l.Perm l')
+    (hn : (l.map (·.prio)).Nodup) :
+    l.foldl (fun acc a => Engine.insertSorted a acc) [] =
+      l'.foldl (fun acc a => Engine.insertSorted a acc) [] :=
+  Engine.anp_order_free_insertSorted hp hn
+
+/-- `sortANPs` on two engines that differ only in the order of their admin policies: same error
+or same engine — hence the same answer to every later query -/
+theorem sortANPs_order_free (e : Engine) {l l' : List ANP} (hp : l.Perm l') :
+    ({ e with anps := l } : Engine).sortANPs = ({ e with anps := l' } : Engine).sortANPs :=
+  Engine.sortANPs_order_free e hp
+
+/-- the sortedness clause of `Engine.Valid` is what `build` establishes -/
+theorem build_sorted {objs : List Obj} {e : Engine} (h : Engine.build objs = .ok e) :
+    e.anps.Pairwise (fun a b => a.prio ≤ b.prio) :=
+  Engine.build_sorted h
+
+/-! ### non-vacuity: a concrete engine with the three layers -/
+namespace Examples
+attribute [local instance] Engine.decEqExcept
+
+def selAll : Selector := ⟨[], []⟩
+def nsDefault : NsObj := ⟨"default", [("kubernetes.io/metadata.name", "default")]⟩
+def web : Pod :=
+  { ns := "default", name := "web", labels := [("app", "web")], ports := [⟨"http", .TCP, 8080⟩] }
+def client : Pod :=
+  { ns := "default", name := "client", labels := [("app", "client")], ports := [] }
+
+/-- selects `web`, ingress only: from `client` on the named port `http`, UDP 53 and TCP 9000 -/
+def np : NetPol :=
+  { ns := "default", name := "np", podSel := ⟨[("app", "web")], []⟩, types := [],
+    ingress := [⟨[.sel (some ⟨[("app", "client")], []⟩) none],
+      [⟨none, .name "http"⟩, ⟨some .UDP, .num 53 none⟩, ⟨none, .num 9000 none⟩]⟩],
+    egress := [] }
+
+/-- every pod: deny ingress on UDP 53, pass everything else to the lower layers -/
+def anp : ANP :=
+  { name := "a", prio := 5, subject := .nss selAll,
+    ingress := [⟨"deny-dns", .Deny, [.nss selAll], some [.num (some .UDP) 53]⟩,
+      ⟨"pass-rest", .Pass, [.nss selAll], none⟩],
+    egress := [] }
+
+/-- every pod: deny ingress on TCP 9000-9100 -/
+def banp : BANP :=
+  { name := "default", subject := .nss selAll,
+    ingress := [⟨"deny-9000", .Deny, [.nss selAll], some [.range none 9000 9100]⟩],
+    egress := [] }
+
+def eng : Engine :=
+  { namespaces := [nsDefault], pods := [web, client], netpols := [np], anps := [anp],
+    anpNames := ["a"], banp := some banp }
+
+def kweb : KPeer := .pod web (some nsDefault)
+def kclient : KPeer := .pod client (some nsDefault)
+
+/-! the hypotheses hold -/
+example : eng.Valid := by decide
+example : kweb.Concrete 0 ∧ kclient.Concrete 0 ∧ kweb.DstOK ∧ kclient.DstOK := by decide
+example : Engine.isPodToItself kclient kweb = false ∧ Engine.isPodToItself kweb kclient = false := by
+  decide
+/-- validity is not trivially true: a BANP with a `Pass` rule, an unsorted slice -/
+example : ¬ ({ eng with banp := some { banp with ingress := anp.ingress } } : Engine).Valid ∧
+    ¬ ({ eng with anps := [anp, { anp with prio := 1 }] } : Engine).Valid := by decide
+/-- the engine is what `build` makes of the objects, in any order (`Engine` has no decidable
+equality: the fields are compared) -/
+def fields1 (e : Engine) := (e.namespaces, e.pods, e.netpols)
+def fields2 (e : Engine) := (e.anps, e.anpNames, e.banp, e.exposure)
+def objs1 : List Obj := [.ns nsDefault, .pod web, .pod client, .np np, .anp anp, .banp banp]
+def objs2 : List Obj := [.banp banp, .anp anp, .np np, .pod client, .ns nsDefault, .pod web]
+example : (Engine.build objs1).map fields1 = .ok (fields1 eng) := by decide
+example : (Engine.build objs1).map fields2 = .ok (fields2 eng) := by decide
+example : (Engine.build objs2).map fields1 = .ok (fields1 { eng with pods := [client, web] }) := by
+  decide
+example : (Engine.build objs2).map fields2 = .ok (fields2 eng) := by decide
+
+/-! the model's answers.
+
+`client → web` (`web` is governed on ingress): the ANP denies UDP 53 although the NetworkPolicy
+allows it; the `Pass` rule hands the rest to the NetworkPolicy, which allows TCP 8080 and 9000; the
+BANP's deny of TCP 9000 is not consulted. -/
+example : eng.peerConns kclient kweb =
+    .ok ⟨false, some ⟨[⟨8080, 8080⟩, ⟨9000, 9000⟩], [], []⟩, none, none⟩ := by decide
+/-- `web → client` (`client` is not governed): everything but what the ANP (UDP 53) and the BANP
+(TCP 9000-9100) deny -/
+example : eng.peerConns kweb kclient =
+    .ok ⟨false, some ⟨[⟨1, 8999⟩, ⟨9101, 65535⟩], [], []⟩,
+      some ⟨[⟨1, 52⟩, ⟨54, 65535⟩], [], []⟩, some ⟨[⟨1, 65535⟩], [], []⟩⟩ := by decide
+
+/-! the specification's answers on the same pairs -/
+example :
+    Spec.allowed eng.toView (kclient.toEnd 0) (kweb.toEnd 0) .TCP 8080 = true ∧
+    Spec.allowed eng.toView (kclient.toEnd 0) (kweb.toEnd 0) .UDP 53 = false ∧
+    Spec.allowed eng.toView (kclient.toEnd 0) (kweb.toEnd 0) .TCP 9000 = true ∧
+    Spec.allowed eng.toView (kclient.toEnd 0) (kweb.toEnd 0) .TCP 80 = false ∧
+    Spec.allowed eng.toView (kweb.toEnd 0) (kclient.toEnd 0) .TCP 80 = true ∧
+    Spec.allowed eng.toView (kweb.toEnd 0) (kclient.toEnd 0) .TCP 9000 = false ∧
+    Spec.allowed eng.toView (kweb.toEnd 0) (kclient.toEnd 0) .UDP 53 = false ∧
+    Spec.allowed eng.toView (kweb.toEnd 0) (kclient.toEnd 0) .SCTP 53 = true := by
+  simp only [Spec.allowed, Spec.allowedDir_eq, Engine.anpVerdict_sorted eng (by decide)]
+  decide
+
+/-- the three layers on the ingress side of `web` and of `client` -/
+example :
+    Spec.anpVerdict eng.toView (kweb.toEnd 0) (kclient.toEnd 0) (kweb.toEnd 0) .ingress .UDP 53
+      = some .Deny ∧
+    Spec.anpVerdict eng.toView (kweb.toEnd 0) (kclient.toEnd 0) (kweb.toEnd 0) .ingress .TCP 9000
+      = some .Pass ∧
+    Spec.governs eng.toView web .ingress = true ∧ Spec.governs eng.toView client .ingress = false ∧
+    Spec.banpVerdict eng.toView (kclient.toEnd 0) (kweb.toEnd 0) (kclient.toEnd 0) .ingress .TCP 9000
+      = some .Deny := by
+  simp only [Engine.anpVerdict_sorted eng (by decide)]
+  decide
+
+/-- the theorem at work: facts about the model's result obtained from the specification alone -/
+example : ∃ c, eng.peerConns kclient kweb = .ok c ∧ c.WF ∧ c.den .TCP 9000 ∧ ¬ c.den .UDP 53 := by
+  cases hc : eng.peerConns kclient kweb with
+  | error err =>
+    exact absurd ((peerConns_spec eng (by decide) kclient kweb 0 0 (by decide) (by decide)
+      (by decide) (by decide)).2 err hc).2.1 (by decide)
+  | ok c =>
+    obtain ⟨hw, hden⟩ := admin_precedence_exact eng (by decide) kclient kweb 0 0 (by decide)
+      (by decide) (by decide) (by decide) c hc
+    refine ⟨c, rfl, hw, (hden _ _).mpr ?_, ?_⟩
+    · simp only [dirDecision, Engine.anpVerdict_sorted eng (by decide)]
+      decide
+    · exact anp_deny_wins eng (by decide) kclient kweb 0 0 (by decide) (by decide) (by decide)
+        (by decide) c hc .UDP 53 (Or.inr (by
+          simp only [Engine.anpVerdict_sorted eng (by decide)]
+          decide))
+
+/-- order-freedom on a concrete pair of lists -/
+example : [anp, { anp with prio := 1 }].foldr Engine.insertByPrio [] =
+    [{ anp with prio := 1 }, anp].foldr Engine.insertByPrio [] :=
+  anp_order_free (List.Perm.swap _ _ _) (by decide)
+
+end Examples
 
 end Netpol.Properties.C02
